@@ -1,4 +1,4 @@
-import SeqVerif.Model.AsyncLemmas
+import SeqVerif.Model.HistAssoc
 import SeqVerif.Extracted.C19
 /-!
 # C19 - a finished asynchronous search equals the synchronous one and survives restarts
@@ -46,14 +46,23 @@ theorem c19_eq_sync_ids (c : Cfg) (fs : List Frac) (from_ to_ L hi : Nat)
       (fetchFoldWith hi c.desc ((filterInRange fs from_ to_).map (fracSearch c · L))).ids = q.ids :=
   fetch_eq_sync_ids c fs from_ to_ L hi hinv hvis hmax hsize hL
 
-/-- **c19_eq_sync (histogram), partial.**  Full statement: for all layouts the fetched histogram equals the
-synchronous one.  Proved under the hypothesis that no document is stored in two of the fractions (then the interval
-of the fold is irrelevant and the fold cannot panic); without it the code as found was wrong - see the two witnesses
-below.  With the repair in place, what is still missing for the full statement is a proof that the histogram
-correction is associative under repetitions when nothing is cut (`removeRepetitions l ++ repetitions l ~ l`, then a
-telescoping sum); on the witness it is checked by `c19_fixed_interval_witness`, and on generated layouts with
-duplicates by the system oracle. -/
-theorem c19_eq_sync_hist_partial (c : Cfg) (fs : List Frac) (from_ to_ L hi : Nat)
+/-- **c19_eq_sync (histogram).**  Done ⇒ every bucket of the fetched histogram equals the synchronous one, for every
+layout of the documents over fractions - documents stored in several fractions included - when a histogram is
+requested (`hi > 0`) and the per-fraction limit does not cut.  This is about the fold at the request's interval, i.e.
+the repaired `FetchSearchResult` (`c19_x_fetch_fixed` ties it to the source); the histogram correction is associative
+when nothing is cut: every merge subtracts per bucket (IDs handed in) - (distinct IDs). -/
+theorem c19_eq_sync_hist (c : Cfg) (hhi : c.hi > 0) (fs : List Frac) (from_ to_ L : Nat)
+    (hvis : ∀ f, f ∈ fs → f.docs ≠ [] → isIntersecting f from_ to_ = true)
+    (hmax : c.maxHits = 0 ∨ (filterInRange fs from_ to_).length ≤ c.maxHits)
+    (hsize : (docsOf fs).length ≤ L) (hL : L ≤ maxInt) :
+    ∃ q, searchDocs c fs from_ to_ L = some q ∧
+      ∀ k, histGet (fetchFoldWith c.hi c.desc ((filterInRange fs from_ to_).map (fracSearch c · L))).hist k
+          = histGet q.hist k :=
+  fetch_eq_sync_hist_full c hhi fs from_ to_ L hvis hmax hsize hL
+
+/-- when no document is stored in two of the fractions, the interval of the fold is irrelevant (also the literal 1
+of the code as found gives the synchronous histogram) and the fold cannot panic -/
+theorem c19_eq_sync_hist_any_interval (c : Cfg) (fs : List Frac) (from_ to_ L hi : Nat)
     (hvis : ∀ f, f ∈ fs → f.docs ≠ [] → isIntersecting f from_ to_ = true)
     (hmax : c.maxHits = 0 ∨ (filterInRange fs from_ to_).length ≤ c.maxHits)
     (hnd : (docsOf fs).Nodup) :
@@ -128,6 +137,19 @@ theorem c19_x_fetch :
     ((fetchIntervalArg = "1" ∧ fetchUsesRequestInterval = false) ∨
      (fetchIntervalArg = "seq.MID(info.Request.Params.HistInterval)" ∧ fetchUsesRequestInterval = true)) := by decide
 
+/-- **the resumed query is the original query.**  The model uses one `search : String → QPR` for the first run and for
+the resumed run (`startWrites` / `resumeWrites`); in the code this means: the query text is parsed in exactly two
+places, both with the store's mapping `as.mp.GetMapping()`, and a reload leaves the AST empty so that `doSearch`
+re-parses it there (never with another mapping). -/
+theorem c19_x_same_mapping :
+    queryParses = ["StartSearch: parser.ParseSeqQL(r.Query, as.mp.GetMapping())",
+                   "doSearch: parser.ParseSeqQL(state.Request.Query, as.mp.GetMapping())"] ∧
+    astAssignments = ["StartSearch: r.Params.AST = ast.Root", "doSearch: state.Request.Params.AST = ast.Root",
+                      "loadAsyncSearches: req.Request.Params.AST = nil"] := by decide
+
+/-- the source contains the repaired fold (the model used by `c19_eq_sync_hist`) -/
+theorem c19_x_fetch_fixed : fetchUsesRequestInterval = true := by decide
+
 /-- the key codec: `Itoa(int(MID)) + "|" + token`, split by `strings.Cut`, `Atoi`, `MID(..)` -/
 theorem c19_x_key_codec :
     aggBinSeparator = "|" ∧
@@ -147,6 +169,15 @@ example :
     fromKey (fun _ => some (-1)) (toKey (fun _ => [45, 49]) 18446744073709551615 [124, 97, 124])
       = some (18446744073709551615, [124, 97, 124]) := by
   decide
+
+/-- `c19_eq_sync_hist` on a layout WITH a duplicated document (ID 20:1 in two fractions), interval 10: the repaired
+fold and the synchronous search agree on bucket 20 (2 distinct IDs there: 20:1 and 25:0) -/
+example :
+    histGet (fetchFoldWith 10 true ([(⟨2, 20, 40, [key 40 0, key 20 1]⟩ : Frac), ⟨2, 20, 25, [key 25 0, key 20 1]⟩].map
+      (fracSearch ⟨true, false, 10, false, 1, 0⟩ · 100))).hist 20 = 2 ∧
+    (searchDocs ⟨true, false, 10, false, 1, 0⟩ [⟨2, 20, 40, [key 40 0, key 20 1]⟩, ⟨2, 20, 25, [key 25 0, key 20 1]⟩] 0 100 100).map
+      (fun q => histGet q.hist 20) = some 2 := by
+  decide +kernel
 
 /-- a three-fraction layout satisfying the hypotheses of `c19_eq_sync_*` -/
 example : (docsOf [(⟨2, 20, 40, [key 40 0, key 20 1]⟩ : Frac), ⟨2, 10, 30, [key 30 1, key 10 0]⟩, ⟨2, 5, 25, [key 25 0, key 5 7]⟩]).Nodup ∧
